@@ -49,7 +49,7 @@ def run(ctx, cfg, fnpath, uninterpreted=None, inline=(), **kw):
     ctx.absorb(ip, fnpath)
     its = []
     for (p, head, bst, bmap, valid, cur) in ip.back_states:
-        if p != fnpath and (p.startswith('#') or p.split('::{closure')[0] in X.KNOWN_FNS):
+        if p != fnpath and (p.startswith('#') or p.split('::{closure')[0] in X.KNOWN_FNS) and not any(p.endswith(k) for k in inline):
             continue      # loops of callees of the reference tree are theirs; a helper extracted later is part of this function
         start = bst.ghost.get(('iter-start', len(bst.frames), head), 0)
         its.append(Iteration(head, bst, bst.calls[start:], cur, bmap, valid))
